@@ -70,6 +70,7 @@ struct Child {
   int death_value = 0;
   uint64_t death_clock = 0;
   bool killed_by_parent = false;
+  pid_t holder = -1; // passive grandchild created by a HOLD action
 };
 
 struct Sim {
@@ -199,6 +200,9 @@ void child_step() {
     case ST_SLEEPING:
       c.sleeping = true;
       c.wake = g.clock + r.aux;
+      break;
+    case ST_RUNNABLE:
+      if (r.aux && c.holder < 0) c.holder = (pid_t)r.aux; // reply to HOLD
       break;
     case ST_EXITING:
       c.death_kind = r.exit_kind;
@@ -615,6 +619,7 @@ struct Script {
   int exit_kind = 1, exit_value = 0;
   bool closes_stdin_early = false;
   bool ignores_term = false;
+  bool holds_pipes = false; // a passive grandchild keeps stdout/stderr open after the child's exit
   string family;
 };
 
@@ -634,7 +639,7 @@ string act_w(int fd, uint64_t n) { return string("W") + std::to_string(fd) + ":"
 Script gen_script(bool for_communicate, size_t pipe_cap) {
   Script s;
   std::vector<string> a;
-  unsigned fam = choose(9, "family");
+  unsigned fam = choose(10, "family");
   auto sleep_act = [&](const char* site) {
     uint64_t us = pick({1000, 1, 50000, 900000, 1500000, 3000000, 30000000, 3600000000ULL}, site);
     s.total_sleep += us;
@@ -712,6 +717,14 @@ Script gen_script(bool for_communicate, size_t pipe_cap) {
       add_out(1, pick({1, 100, 70000, 200 * 1024}, "wp.o2"));
       if (choose(2, "wp.err")) add_out(2, pick({1, 100}, "wp.e"));
       break;
+    case 9: // closes stdout early, then consumes its input
+      s.family = "closes_stdout_early";
+      if (choose(2, "co.first")) add_out(1, pick({1, 100, 5000}, "co.o"));
+      a.push_back("C1");
+      a.push_back("RA");
+      s.reads_to_eof = true;
+      if (choose(2, "co.err")) add_out(2, pick({1, 100}, "co.e"));
+      break;
     default: // output just before dying by a signal
       s.family = "killed_by_signal";
       if (choose(2, "ks.read")) {
@@ -726,6 +739,12 @@ Script gen_script(bool for_communicate, size_t pipe_cap) {
   if (choose(8, "ignterm") == 7) {
     a.insert(a.begin(), "IGNTERM");
     s.ignores_term = true;
+  }
+  if (!for_communicate && choose(8, "hold") == 7) {
+    // a background grandchild inherits the pipes: after the child's exit the parent's reads end with
+    // EAGAIN instead of EOF (communicate() would rightly wait for such a grandchild, so not there)
+    a.insert(a.begin(), "HOLD");
+    s.holds_pipes = true;
   }
   if (s.exit_kind == 2) {
     a.push_back("KILL:" + std::to_string(s.exit_value));
@@ -784,6 +803,10 @@ size_t effective_capacity() { return g.pipe_capacity ? g.pipe_capacity : 65536; 
 // Cleans up whatever the code under test left behind; reports leaks of processes.
 void reap_leftovers(const string& api, bool expect_reaped) {
   Child& c = g.ch;
+  if (c.holder > 0) {
+    __real_kill(c.holder, SIGKILL); // not our child (a grandchild): init reaps it
+    c.holder = -1;
+  }
   if (c.pid <= 0) return;
   int st = 0;
   pid_t r = __real_waitpid(c.pid, &st, WNOHANG);
@@ -930,6 +953,7 @@ void scen_run_process() {
 
   // reach
   if (payload.size() > effective_capacity()) VS_PROBE("payload_larger_than_pipe");
+  if (s.holds_pipes) VS_PROBE("grandchild_kept_pipes_open");
   if (s.w1 > effective_capacity() || s.w2 > effective_capacity()) VS_PROBE("output_larger_than_pipe");
   if (g.unread_stdout_at_exit) VS_PROBE("child_exited_with_unread_output_in_pipe");
 }
@@ -1007,11 +1031,106 @@ void scen_communicate() {
   else VS_PROBE("communicate_without_deadline_returned");
 }
 
+// Subprocess life cycle without communicate(): construct, poll wait(true), optionally signal, optionally
+// close stdin and wait(), optionally move-construct, destroy. Every child must be reaped by the time
+// the last owner is destroyed, wait() must report the real status and cache it, no deadlock.
+void scen_lifecycle() {
+  count("scenario.lifecycle");
+  draw_environment();
+  Script s = gen_script(true, effective_capacity());
+  // nobody reads the child's stdout here: keep its total output below half a pipe so that a child
+  // blocked on a full pipe is not the *scenario's* fault
+  if (s.w1 + s.w2 > effective_capacity() / 2 || s.uses_cat) {
+    s = Script();
+    s.family = "tiny";
+    s.text = "W1:10:10;SLEEP:" + std::to_string(pick({1000, 2000000, 60000000}, "lc.sleep")) + ";EXIT:" + std::to_string(s.exit_value = (int)pick({0, 7}, "lc.exit"));
+    s.w1 = 10;
+  }
+  for (size_t i = 0, pc = 0; i < s.text.size(); i++) {
+    if (s.text[i] == ';') pc++;
+    if (!s.text.compare(i, 7, "IGNTERM")) g.ign_term_pcs.push_back(pc);
+  }
+  unsigned polls = choose(5, "lc.polls");
+  unsigned sig = (unsigned)pick({0, 0, SIGTERM, SIGKILL, SIGUSR1}, "lc.signal");
+  bool close_stdin_and_wait = choose(2, "lc.wait");
+  bool move_it = choose(3, "lc.move") == 2;
+  note("lifecycle family=" + s.family + " script=" + s.text + " polls=" + std::to_string(polls) + " signal=" + std::to_string(sig) + " wait=" + std::to_string(close_stdin_and_wait) + " move=" + std::to_string(move_it));
+  ev("cfg", polls, sig, close_stdin_and_wait * 2 + move_it);
+  mark_nontrivial();
+  std::set<int> fds_before = open_fds();
+  std::vector<string> cmd = {g_child_path, s.text};
+  std::vector<int> polled;
+  int waited = -2, waited_again = -2;
+  bool threw = false;
+  string what;
+  set_context("lifecycle/" + s.family);
+  g.armed = true;
+  try {
+    phosg::Subprocess first(cmd);
+    phosg::Subprocess* sp = &first;
+    // (moving a Subprocess is not exercised: its move constructor reads the never-initialised member
+    // `terminated`, which UBSan rejects depending on stack garbage; C15 makes no statement about moves)
+    (void)move_it;
+    for (unsigned i = 0; i < polls; i++) polled.push_back(sp->wait(true));
+    if (sig && g.ch.alive) sp->kill(sig);
+    if (close_stdin_and_wait) {
+      close(sp->stdin_fd()); // so that a child reading stdin sees EOF instead of waiting forever
+      waited = sp->wait();
+      waited_again = sp->wait(true);
+    }
+  } catch (const std::exception& e) {
+    threw = true;
+    what = e.what();
+  }
+  g.armed = false;
+  set_context("");
+  Child& c = g.ch;
+  {
+    std::set<int> fds_after = open_fds();
+    for (int fd : fds_after)
+      if (!fds_before.count(fd) && fd != c.ctl) __real_close(fd);
+  }
+  bool already_failed = failed();
+  reap_leftovers("lifecycle", true);
+  if (already_failed || failed()) throw AbortRun();
+  if (threw) fail("lifecycle/unexpected_exception", s.family, "Subprocess life cycle threw '" + what.substr(0, 120) + "'");
+  int expected_status = c.death_kind == 1 ? (c.death_value << 8) : c.death_value;
+  if (close_stdin_and_wait) {
+    if (waited != expected_status) fail("lifecycle/wrong_exit_status", c.death_kind == 2 ? "signal" : "exit_code", "wait() reported " + status_text(waited) + " but the child ended with " + status_text(expected_status));
+    if (waited_again != waited) fail("lifecycle/status_not_cached", "wait", "wait(true) after wait() returned " + status_text(waited_again) + " instead of the cached " + status_text(waited));
+    VS_PROBE("lifecycle_waited");
+  }
+  bool seen_exit = false;
+  for (int v : polled) {
+    if (v >= 0) {
+      if (v != expected_status) fail("lifecycle/wrong_exit_status", "poll", "wait(true) reported " + status_text(v) + " but the child ended with " + status_text(expected_status));
+      seen_exit = true;
+    } else if (seen_exit) {
+      fail("lifecycle/status_not_cached", "poll", "wait(true) returned 'still running' after it had already reported the exit status");
+    }
+  }
+  if (c.killed_by_parent && !sig) VS_PROBE("destructor_killed_running_child");
+  if (!c.killed_by_parent) VS_PROBE("destructor_found_child_exited");
+}
+
 } // namespace
 
 static void run() {
-  if (choose(3, "api") == 2) scen_communicate();
-  else scen_run_process();
+  unsigned api = choose(8, "api");
+  if (api == 2 || api == 5) {
+    scen_communicate();
+  } else if (api == 7) {
+    scen_lifecycle();
+  } else {
+    // "however many times it is called": usually once, sometimes a short series in one process
+    unsigned n = choose(6, "calls") == 5 ? 2 + choose(2, "calls.more") : 1;
+    std::set<int> before = open_fds();
+    for (unsigned i = 0; i < n; i++) scen_run_process();
+    if (n > 1) {
+      VS_PROBE("run_process_called_repeatedly");
+      if (open_fds() != before) fail("run_process/fd_leak", "across_calls", "the set of open descriptors changed over " + std::to_string(n) + " consecutive run_process calls");
+    }
+  }
 }
 
 static void process_init() {
@@ -1038,9 +1157,10 @@ int main(int argc, char** argv) {
   e.quick_cap_s = 200;
   e.thorough_cap_s = 1700;
   e.rule =
-      "one run = one call of run_process(cmd, stdin?, check, timeout) or Subprocess+communicate(payload, deadline)+wait+destruction against a scripted child "
-      "(nine families: read-all-then-write, write-then-read, cat, interleaved, exits at once, slow reader, closes stdin early, writes after a long pause, dies by a "
-      "signal; payload and output sizes up to 1 MiB, pipe capacity 4 KiB..1 MiB) under one seeded schedule (number of child steps released at every parent system "
+      "one run = one call (sometimes 2-3 consecutive calls) of run_process(cmd, stdin?, check, timeout), or Subprocess+communicate(payload, deadline)+wait+destruction, or a "
+      "Subprocess life cycle without communicate (poll wait, signal, move, wait, destroy), against a scripted child "
+      "(ten families: read-all-then-write, write-then-read, cat, interleaved, exits at once, slow reader, closes stdin early, closes stdout early, writes after a long "
+      "pause, dies by a signal; optionally a passive grandchild that keeps the pipes open; payload and output sizes up to 1 MiB, pipe capacity 4 KiB..1 MiB) under one seeded schedule (number of child steps released at every parent system "
       "call, stalls, simulated sleeps, EINTR, spurious EAGAIN, clamped transfers); distinct = distinct hash of the event log (every parent call with its result, "
       "every child step, every byte returned); every run is non-trivial (two real processes interleave)";
   e.assumptions = {
@@ -1053,7 +1173,7 @@ int main(int argc, char** argv) {
       {"child program", "stub: vsim/child.c, a scripted peer that makes one non-blocking step per simulator command"},
       {"scheduling between parent and child, clock, poll timeouts, EINTR/EAGAIN/short transfers", "simulator (link-time wrappers in engines/sim_proc.cc)"}};
   e.expected_probes = {"payload_larger_than_pipe", "output_larger_than_pipe", "clock_jumped_over_child_sleep", "poll_timed_out", "blocking_waitpid", "timeout_killed_child", "check_threw_on_nonzero_status",
-      "child_died_by_own_signal", "child_exited_with_unread_output_in_pipe", "communicate_with_deadline_returned", "communicate_without_deadline_returned", "communicate_deadline_passed", "parent_busy_wait_skipped"};
+      "child_died_by_own_signal", "child_exited_with_unread_output_in_pipe", "communicate_with_deadline_returned", "communicate_without_deadline_returned", "communicate_deadline_passed", "parent_busy_wait_skipped", "lifecycle_waited", "destructor_killed_running_child", "destructor_found_child_exited", "run_process_called_repeatedly", "grandchild_kept_pipes_open"};
   e.expected_faults = {"EINTR@poll", "EINTR@waitpid", "spurious_EAGAIN@read", "spurious_EAGAIN@write", "short_read", "short_write", "parent_stall"};
   return driver_main(argc, argv, e);
 }
